@@ -1,5 +1,6 @@
 SPECIFICATION Spec
 CONSTANTS
+  Variant = "euclid"
   Trains <- QTrains
   Templates <- QTemplates
   Topos <- Chain
